@@ -1,6 +1,7 @@
 import Pyc.Proofs.CborAll
 import Pyc.Proofs.Codec
 import Pyc.Proofs.Typed
+import Pyc.Proofs.CustomCodec
 import Pyc.Generated.Schema
 
 /-! # C03 — transaction identity survives decode and re-encode
@@ -18,11 +19,15 @@ function of the bytes, the BLAKE2b-256 id included, is unchanged.
   of every schema table, in particular the regenerated `repoSchema`.
 * `id_preserved` — for any hash function.
 * `set_form_preserved`, `optional_subset_preserved` — the wire choices are part of the restored value.
+* `value_reencode_bytes`, `output_reencode`, `body_reencode`, `body_set_field_*` — the hand-written codecs
+  (`Model/CustomCodec.lean`): decoding the bytes of a value / an output / a body and serializing the result again gives
+  the same bytes — for an output ALWAYS (whatever the `post_alonzo` flag, the datum / script combination or the form),
+  for a body for the tagged and the untagged wire form of every set-valued field.
 The C extension back end and the interpreter hash seed are outside any model of the Python code: they are exercised
 on the implementation in sub-processes (see DESIGN.md). -/
 
 namespace Pyc.C03
-open Pyc Pyc.Codec Pyc.Cbor Pyc.Schema Pyc.Generated
+open Pyc Pyc.Codec Pyc.Cbor Pyc.Schema Pyc.Generated Pyc.Custom
 
 /-- byte-level CBOR round trip with framing -/
 theorem cbor_bytes_roundtrip (x : Item) (hw : WF x) : decodeAll (encode x) = some x := decodeAll_encode x hw
@@ -61,30 +66,30 @@ theorem framing_distinct (xs : List Item) : encode (.array xs) ≠ encode (.arra
 
 /-- **decode then re-encode reproduces the received bytes**, for every schema table and every typed value whose
 primitive is CBOR-representable (lengths and arguments below 2^64) -/
-theorem reencode_same_bytes (S : List ClassDef) (hS : WFS S) (t : Ty) (v : Val) (h : HasType S t v)
+theorem reencode_same_bytes (S : List ClassDef) (t : Ty) (v : Val) (h : HasType S t v)
     (hw : WF (toPrim S v)) :
     ∃ N, ∀ fuel, N ≤ fuel → ∃ i v', decodeAll (encodeVal S v) = some i ∧ fromPrim S fuel t i = .ok v' ∧
       encodeVal S v' = encodeVal S v := by
-  obtain ⟨N, hN⟩ := rt_all hS h
+  obtain ⟨N, hN⟩ := rt_all h
   refine ⟨N, fun fuel hf => ⟨toPrim S v, v, ?_, hN fuel hf, rfl⟩⟩
   unfold encodeVal
   exact decodeAll_encode _ hw
 
 /-- … so every function of the bytes — the transaction id `H(body bytes)` — is the same before and after -/
-theorem id_preserved {α : Type} (H : Bytes → α) (S : List ClassDef) (hS : WFS S) (t : Ty) (v : Val)
+theorem id_preserved {α : Type} (H : Bytes → α) (S : List ClassDef) (t : Ty) (v : Val)
     (h : HasType S t v) (hw : WF (toPrim S v)) :
     ∃ N, ∀ fuel, N ≤ fuel → ∃ i v', decodeAll (encodeVal S v) = some i ∧ fromPrim S fuel t i = .ok v' ∧
       H (encodeVal S v') = H (encodeVal S v) := by
-  obtain ⟨N, hN⟩ := reencode_same_bytes S hS t v h hw
+  obtain ⟨N, hN⟩ := reencode_same_bytes S t v h hw
   refine ⟨N, fun fuel hf => ?_⟩
   obtain ⟨i, v', h1, h2, h3⟩ := hN fuel hf
   exact ⟨i, v', h1, h2, by rw [h3]⟩
 
 /-- the set encoding chosen by the sender (tag 258 or bare array) is part of the restored value, for both forms -/
-theorem set_form_preserved (S : List ClassDef) (hS : WFS S) (t : Ty) (ne tagged : Bool) (xs : List Val)
+theorem set_form_preserved (S : List ClassDef) (t : Ty) (ne tagged : Bool) (xs : List Val)
     (h : HasTypeList S t xs) :
     ∃ N, ∀ fuel, N ≤ fuel → fromPrim S fuel (.oset t ne) (toPrim S (.oset tagged xs)) = .ok (.oset tagged xs) :=
-  rt_all hS (HasType.oset h)
+  rt_all (HasType.oset h)
 
 theorem set_forms_differ (S : List ClassDef) (xs : List Val) :
     toPrim S (.oset true xs) ≠ toPrim S (.oset false xs) := by
@@ -101,6 +106,86 @@ example :
           | _ => false)
       | none => false) = true := by decide +kernel
 
+
+/-! ## hand-written codecs -/
+
+/-- **`Value`**: the bytes of a well-formed value decode, and the decoded value re-encodes to the same bytes -/
+theorem value_reencode_bytes (v : Value) (h : ValueOk v) (hw : Cbor.WF (itemValue v)) :
+    ∃ v', decValueBytes (encValueBytes v) = .ok v' ∧ encValueBytes v' = encValueBytes v :=
+  ⟨normValue v, decValueBytes_enc v h hw, by unfold encValueBytes; rw [itemValue_normValue]⟩
+
+/-- **`TransactionOutput`: re-encoding the decoded output reproduces the bytes, ALWAYS** — legacy or map form, datum
+hash / inline datum / both / neither, any script, flag set or not; the `post_alonzo` flag the decoder recomputes
+(finding KF-C01-post-alonzo-flag) never changes the bytes.  Hypotheses: the output is well-formed (`OutputOk`), the leaf
+codecs restore what they wrote, sizes are CBOR-representable. -/
+theorem output_reencode {A D N : Type} (L : Leaves A D N) (hL : L.Lawful) (o : Output A D N) (h : OutputOk L o)
+    (hw : Cbor.WF (itemOutput L o)) :
+    ∃ o', decOutputBytes L (encOutputBytes L o) = .ok o' ∧ encOutputBytes L o' = encOutputBytes L o := by
+  refine ⟨decodedOutput o, ?_, ?_⟩
+  · unfold decOutputBytes encOutputBytes
+    rw [decodeAll_encode _ hw]
+    exact decOutput_itemOutput L hL o h
+  · unfold encOutputBytes; rw [itemOutput_decodedOutput]
+
+/-- the primitive level of the same fact needs no hypothesis at all -/
+theorem output_reencode_item {A D N : Type} (L : Leaves A D N) (o : Output A D N) :
+    itemOutput L (decodedOutput o) = itemOutput L o := itemOutput_decodedOutput L o
+
+/-- **`TransactionBody`** (any dataclass value whose normal form is typed): decoding the bytes returns the normal form,
+and serializing that again gives the received bytes -/
+theorem body_reencode (S : List ClassDef) (n : String) (v : Val) (h : HasType S (.cls n) (bodyNorm S v))
+    (hw : WF (toPrim S v)) :
+    ∃ N, ∀ fuel, N ≤ fuel → ∃ i v', decodeAll (encodeVal S v) = some i ∧ fromPrim S fuel (.cls n) i = .ok v' ∧
+      encodeVal S v' = encodeVal S v := by
+  obtain ⟨N, hN⟩ := decode_encode_bodyNorm S n v h
+  refine ⟨N, fun fuel hf => ⟨toPrim S v, bodyNorm S v, ?_, hN fuel hf, ?_⟩⟩
+  · unfold encodeVal; exact decodeAll_encode _ hw
+  · unfold encodeVal; rw [toPrim_bodyNorm]
+
+/-- a set-valued body field `Union[List[T], OrderedSet[T], …]`, **untagged wire form** (a bare array): whether the sender
+held a list or an untagged ordered set, the decoder returns the list, whose bytes are the received bytes -/
+theorem body_set_field_untagged (S : List ClassDef) (t : Ty) (ne : Bool) (post : List Ty) (xs : List Val)
+    (h : HasTypeList S t xs) :
+    ∃ N, ∀ fuel, N ≤ fuel →
+      fromPrim S fuel (.union (.list t :: .oset t ne :: post)) (toPrim S (.oset false xs)) = .ok (.list xs) ∧
+      toPrim S (.list xs) = toPrim S (.oset false xs) := by
+  have ht : HasType S (.union ([] ++ .list t :: (.oset t ne :: post))) (.list xs) :=
+    HasType.union (HasType.list h) (by intro t' ht'; simp at ht')
+  obtain ⟨N, hN⟩ := rt_all ht
+  refine ⟨N, fun fuel hf => ⟨?_, by simp [toPrim]⟩⟩
+  have := hN fuel hf
+  simpa [toPrim] using this
+
+/-- … **tagged wire form** (`#6.258([…])`): `List[T]` refuses the tag, `OrderedSet[T]` restores the set and remembers
+the tag, so the received bytes are reproduced -/
+theorem body_set_field_tagged (S : List ClassDef) (t : Ty) (ne : Bool) (post : List Ty) (xs : List Val)
+    (h : HasTypeList S t xs) :
+    ∃ N, ∀ fuel, N ≤ fuel →
+      fromPrim S fuel (.union (.list t :: .oset t ne :: post)) (toPrim S (.oset true xs)) = .ok (.oset true xs) := by
+  have ht : HasType S (.union ([.list t] ++ .oset t ne :: post)) (.oset true xs) :=
+    HasType.union (HasType.oset h) (by
+      intro t' ht'
+      simp only [List.mem_singleton] at ht'
+      subst ht'
+      exact Ev.pos (fun n => by simp [toPrim, fromPrim, listElems?]))
+  exact rt_all ht
+
+/-! non-vacuity: the examples of `Props/C01.lean` (`exValue`, `exInline`, `exFlag`, `exBody`) are evaluated there by
+the kernel through encoder, CBOR decoder, typed restoration and re-encoder; here the three wire forms of a set-valued
+field of the REAL table -/
+def exSigners : List Val := [.cb (List.replicate 28 5), .cb (List.replicate 28 6)]
+def signersTy : Ty := .union [.list (.cls "VerificationKeyHash"), .oset (.cls "VerificationKeyHash") true, .none]
+
+example : HasTypeList repoSchema (.cls "VerificationKeyHash") exSigners :=
+  (typed_sound repoSchema 10).2.1 _ _ (by decide +kernel)
+example :
+    ((match fromPrim repoSchema 10 signersTy (toPrim repoSchema (.oset true exSigners)) with
+        | .ok (.oset true xs) => xs.length == 2 | _ => false) &&
+     (match fromPrim repoSchema 10 signersTy (toPrim repoSchema (.oset false exSigners)) with
+        | .ok (.list xs) => xs.length == 2 | _ => false) &&
+     (match fromPrim repoSchema 10 signersTy (toPrim repoSchema (.list exSigners)) with
+        | .ok (.list xs) => xs.length == 2 | _ => false)) = true := by decide +kernel
+
 end Pyc.C03
 
 #print axioms Pyc.C03.cbor_bytes_roundtrip
@@ -109,3 +194,9 @@ end Pyc.C03
 #print axioms Pyc.C03.id_preserved
 #print axioms Pyc.C03.set_form_preserved
 #print axioms Pyc.C03.set_forms_differ
+#print axioms Pyc.C03.value_reencode_bytes
+#print axioms Pyc.C03.output_reencode
+#print axioms Pyc.C03.output_reencode_item
+#print axioms Pyc.C03.body_reencode
+#print axioms Pyc.C03.body_set_field_untagged
+#print axioms Pyc.C03.body_set_field_tagged
